@@ -87,6 +87,33 @@ impl LSpec {
     fn exclusive(&self, id: usize) -> bool {
         id != 0 && self.states[id - 1].1
     }
+    pub fn to_json(&self) -> serde_json::Value {
+        json!({
+            "states": self.states.iter().map(|(n, x)| json!([n, x])).collect::<Vec<_>>(),
+            "rules": self.rules.iter().map(|r| json!({
+                "re": r.re, "name": r.name, "states": r.states,
+                "target": match r.target { Target::None => json!(null), Target::Replace(t) => json!(["replace", t]), Target::Push(t) => json!(["push", t]), Target::Pop(t) => json!(["pop", t]) },
+            })).collect::<Vec<_>>(),
+            "case_insensitive": self.case_insensitive, "dot_matches_new_line": self.dot_matches_new_line, "multi_line": self.multi_line,
+        })
+    }
+    pub fn from_json(v: &serde_json::Value) -> Option<LSpec> {
+        let states = v["states"].as_array()?.iter().map(|s| Some((s[0].as_str()?.to_string(), s[1].as_bool()?))).collect::<Option<Vec<_>>>()?;
+        let rules = v["rules"]
+            .as_array()?
+            .iter()
+            .map(|r| {
+                let target = match r["target"][0].as_str() {
+                    None => Target::None,
+                    Some("replace") => Target::Replace(r["target"][1].as_u64()? as usize),
+                    Some("push") => Target::Push(r["target"][1].as_u64()? as usize),
+                    Some(_) => Target::Pop(r["target"][1].as_u64()? as usize),
+                };
+                Some(LRule { re: r["re"].as_str()?.to_string(), name: r["name"].as_str().map(|x| x.to_string()), states: r["states"].as_array()?.iter().map(|x| x.as_u64().unwrap_or(0) as usize).collect(), target })
+            })
+            .collect::<Option<Vec<_>>>()?;
+        Some(LSpec { states, rules, case_insensitive: v["case_insensitive"].as_bool()?, dot_matches_new_line: v["dot_matches_new_line"].as_bool()?, multi_line: v["multi_line"].as_bool()? })
+    }
 }
 
 type Tok = Result<(u32, usize, usize), usize>; // Ok(id, start, len) | Err(position)
@@ -220,7 +247,7 @@ fn check_spec(ctx: &Ctx, spec: &LSpec, inputs: &[String], idmaps: bool, st: &mut
 fn check_spec_inner(ctx: &Ctx, spec: &LSpec, inputs: &[String], idmaps: bool, st: &mut Stats) {
     st.specs += 1;
     let text = spec.to_lex();
-    let case = |input: &str| json!({"spec": text, "input": input});
+    let case = |input: &str| json!({"spec": text, "input": input, "lspec": spec.to_json(), "idmaps": idmaps});
     let Some(res) = compile(spec) else { return };
     let mut ld = match LRNonStreamingLexerDef::<DefaultLexerTypes<u32>>::from_str(&text) {
         Ok(ld) => ld,
@@ -268,7 +295,7 @@ fn check_spec_inner(ctx: &Ctx, spec: &LSpec, inputs: &[String], idmaps: bool, st
                     ctx.violation(
                         "c09-idsync",
                         &format!("set_rule_ids with keys {:?} on rules {:?} returned ({:?}, {:?}), expected ({:?}, {:?})", keys, rule_names, a, b, norm(exp_a), norm(exp_b)),
-                        json!({"spec": text, "keys": keys.iter().collect::<Vec<_>>()}),
+                        json!({"spec": text, "keys": keys.iter().collect::<Vec<_>>(), "input": "", "lspec": spec.to_json(), "idmaps": true}),
                     );
                 }
                 names.iter().map(|n| n.as_ref().and_then(|n| m.get(n).cloned())).collect()
@@ -422,11 +449,12 @@ fn stack_specs(n: usize, rich: bool) -> Vec<LSpec> {
 
 pub fn run(ctx: Ctx) -> i32 {
     if let Some(case) = load_replay(&ctx) {
-        // replays re-lex the stored text with default ids against a reference rebuilt from it
-        let text = case["spec"].as_str().unwrap_or("").to_string();
+        // the abstract specification is rebuilt from the replay file and the same comparison is
+        // made on the stored input (with every id map if the case was checked with id maps)
+        let Some(spec) = LSpec::from_json(&case["lspec"]) else { machinery("replay: no lspec in the case") };
         let input = case["input"].as_str().unwrap_or("").to_string();
-        let ld = LRNonStreamingLexerDef::<DefaultLexerTypes<u32>>::from_str(&text);
-        ctx.note(&format!("replay: real lexer gives {:?}", ld.as_ref().ok().map(|l| real_lex(l, &input))));
+        let mut st = Stats::default();
+        check_spec(&ctx, &spec, &[input], case["idmaps"].as_bool().unwrap_or(false), &mut st);
         return ctx.finish(json!({"states":1,"transitions":1,"traces_validated_against_impl":1,"samples":[case]}), &[], false);
     }
     let menu = ["a", "b", "ab", "a+", "[ab]", "a|ab", "é", ".", "a*b"];
